@@ -71,6 +71,22 @@ pub fn centroid_case(cx: &mut Ctx, n: u64, case: &Value) {
             Err(e) => cx.bad("C06", "centroid_variant", case, json!({"what": format!("variant {name}"), "detail": e})),
         }
     }
+    // a flat polygon with DECIMAL coordinates: the x values of this case's shell, re-labelled by v -> 0.1 v + 0.3, put on the main
+    // diagonal (x = y, so exactly collinear whatever the rounding): zero area, so the centroid is that of the outline (C06: "a
+    // polygon of zero area falls back to the centroid of its outline") - a relation between two answers of the implementation
+    if let G::Polygon(p) = &g {
+        let mut d: Vec<Coord<f64>> = p.exterior().0.iter().map(|c| { let v = c.x * 0.1 + 0.3; Coord { x: v, y: v } }).collect();
+        d.dedup();
+        if d.len() >= 3 && d.first() == d.last() {
+            let (ring, poly) = (geo::LineString::new(d.clone()), geo::Polygon::new(geo::LineString::new(d.clone()), vec![]));
+            let (a, b) = (guard(|| poly.centroid()), guard(|| ring.centroid()));
+            let ok = matches!((&a, &b), (Ok(Some(x)), Ok(Some(y))) if (x.x() - y.x()).abs() <= 1e-12 && (x.y() - y.y()).abs() <= 1e-12);
+            cx.count("flat_diagonal_decimal_polygons", 1);
+            if ok { cx.ok("flat_polygon_falls_back_to_outline"); } else {
+                cx.bad("C06", "flat_polygon_falls_back_to_outline", case, json!({"what": "flat polygon on the main diagonal with decimal coordinates: Polygon::centroid vs centroid of its exterior", "ring": d.iter().map(|c| c.x).collect::<Vec<_>>(), "polygon": format!("{a:?}"), "outline": format!("{b:?}")}));
+            }
+        }
+    }
     // equivariance under exact similarity maps (translation, uniform power-of-two scaling, D4)
     let maps: Vec<_> = exact_maps().into_iter().filter(|m| m.similarity().is_some()).collect();
     for k in 0..3usize {
